@@ -23,6 +23,7 @@ pub mod c15;
 pub mod c16;
 pub mod c17;
 pub mod codec;
+pub mod cold;
 
 pub fn run(prop: &str, leg: &str, ctx: &Ctx, rep: &mut Report) -> bool {
     match (prop, leg) {
@@ -46,6 +47,24 @@ pub fn run(prop: &str, leg: &str, ctx: &Ctx, rep: &mut Report) -> bool {
             println!("{}\n{}\n{}\n{}", crate::util::hex(&F512::sk_to_bytes(&sk)), crate::util::hex(&F512::pk_to_bytes(&pk)), crate::util::hex(&msg), crate::util::hex(&F512::sig_to_bytes(&sig)));
             rep.evaluations += 1;
         }
+        (_, "cold-child") => cold::child(ctx, rep),
+        ("C11", "cold-start") => {
+            cold::parent(ctx, "C11", &["ntt-inverse-first", "ntt-roundtrip-first", "ntt-product-first"], &[2, 4, 8, 16, 32, 64, 64, 128, 256, 512, 1024], ctx.sz(600, 6000), &|_| vec![], rep);
+            rep.require("cold_start_processes", 100);
+        }
+        ("C13", "cold-start") => {
+            cold::parent(ctx, "C13", &["fft-roundtrip-first", "fft-split-first", "fft-product-first"], &[2, 4, 8, 16, 32, 64, 128, 256, 512, 1024], ctx.sz(600, 6000), &|_| vec![], rep);
+            rep.require("cold_start_processes", 100);
+        }
+        ("C14", "cold-start") => {
+            cold::parent(ctx, "C14", &["h2p"], &[0, 1, 8, 42, 135, 136, 200, 1000], ctx.sz(300, 4000), &|_| vec![], rep);
+            rep.require("cold_start_processes", 60);
+        }
+        ("C12", "cold-start") => {
+            cold::parent(ctx, "C12", &["felt-batch"], &[1, 2, 7, 64, 512, 1024], ctx.sz(300, 4000), &|_| vec![], rep);
+            rep.require("cold_start_processes", 60);
+        }
+        ("C02", "cold-start") => c02::cold_start(ctx, rep),
         ("C01", "matrix") => c01::matrix(ctx, rep),
         ("C01", "native") => c01::native(ctx, rep),
         ("C01", "concurrent") => c01::concurrent(ctx, rep),
